@@ -19,6 +19,10 @@ pub const TEMPLATES: &[(&str, &str, &str)] = &[
     ("lex-unterminated-string", "lexer", "from t | select {x = ⟦'abc}⟧"),
     ("syn-stray-paren", "parser", "from t | select {a, b} ⟦)⟧"),
     ("syn-missing-brace", "parser", "from t | select ⟦{a, b⟧"),
+    // premature end of input: the region runs from the construct left open to the end of the text
+    ("syn-missing-paren", "parser", "from t | filter ⟦(a > 1⟧"),
+    ("syn-dangling-arrow", "parser", "let f = ⟦func a ->⟧"),
+    ("syn-dangling-operator", "parser", "from t | derive x = ⟦a +⟧"),
     ("syn-double-equals-let", "parser", "let x = ⟦=⟧ 5"),
     ("syn-bad-arrow", "parser", "let f = x ⟦=>⟧ x + 1"),
     ("res-unknown-name", "resolver", "from t | select {a, b} | filter ⟦zz⟧ > 1"),
@@ -53,6 +57,16 @@ pub const PADDINGS: &[(&str, &str, bool)] = &[
     ("backtick-ident-same-line", "derive {`çé 🐢` = 1} | ", true),
 ];
 
+/// text after the erroneous program, in the file that holds it (an error found at the end of the input
+/// has the whole trailer between the last token and the end of the file)
+pub const TRAILERS: &[(&str, &str)] = &[
+    ("none", ""),
+    ("comment-without-newline", "  # tail"),
+    ("newline", "\n"),
+    ("multibyte-comment-and-newline", " # fin é\n"),
+    ("blank-lines-then-comment", "\n\n# tail"),
+];
+
 #[derive(Clone, Debug)]
 pub struct CaseSpec {
     pub template: usize,
@@ -60,6 +74,8 @@ pub struct CaseSpec {
     /// 0 single file; 1 = 2-file project, error in root; 2 = 2-file project, error in module;
     /// 3 = 3-file project, error in the second module
     pub placement: usize,
+    /// index into TRAILERS
+    pub trailer: usize,
 }
 
 pub struct Built {
@@ -112,9 +128,11 @@ pub fn build(c: &CaseSpec) -> Built {
         (format!("{header}{pad}{rest}"), (a + shift, b + shift))
     };
     let _ = hdr_chars;
+    let trailer = TRAILERS[c.trailer].1;
     let stage = TEMPLATES[c.template].1;
     let wraps = (stage == "resolver" || stage == "sql") && wrap_as_module(&content) != content;
-    let modtext = if wraps { wrap_as_module(&content) } else { content.clone() };
+    let modtext = format!("{}{trailer}", if wraps { wrap_as_module(&content) } else { content.clone() });
+    let content = format!("{content}{trailer}");
     let modregion = if wraps { shift_region(&content, region) } else { region };
     let main_for_module = if wraps { "from helpers.bad\n".to_string() } else { "from t | select {a}\n".to_string() };
     match c.placement {
@@ -220,6 +238,16 @@ fn line_col(src: &str, byte: usize) -> (usize, usize, usize) {
     (line, src[ls..byte].chars().count(), byte - ls)
 }
 
+/// the other name of the end-of-text position behind a final line break: (last line, its length + 1)
+fn eof_alt(src: &str, byte: usize) -> Option<(usize, usize, usize)> {
+    if byte == src.len() && src.ends_with('\n') {
+        let p = line_col(src, byte - 1);
+        Some((p.0, p.1 + 1, p.2 + 1))
+    } else {
+        None
+    }
+}
+
 fn check_spans(b: &Built, errs: &prqlc::ErrorMessages, stage: &str, conv: Conv) -> Vec<(String, String)> {
     let mut bad = vec![];
     let src = &b.files.iter().find(|(p, _)| *p == b.err_file).unwrap().1;
@@ -261,8 +289,12 @@ fn check_spans(b: &Built, errs: &prqlc::ErrorMessages, stage: &str, conv: Conv) 
         let (s, en) = (line_col(src, bs), line_col(src, be));
         match &e.location {
             Some(loc) => {
-                let chars_ok = loc.start == (s.0, s.1) && loc.end == (en.0, en.1);
-                let bytes_ok = conv == Conv::Bytes && loc.start == (s.0, s.2) && loc.end == (en.0, en.2);
+                // the offset just behind a final line break is the start of a line that has no text: naming it
+                // as one past the end of the last line is the same position
+                let (s2, en2) = (eof_alt(src, bs).unwrap_or(s), eof_alt(src, be).unwrap_or(en));
+                let same = |l: (usize, usize), p: (usize, usize, usize), q: (usize, usize, usize), bytes: bool| if bytes { l == (p.0, p.2) || l == (q.0, q.2) } else { l == (p.0, p.1) || l == (q.0, q.1) };
+                let chars_ok = same(loc.start, s, s2, false) && same(loc.end, en, en2, false);
+                let bytes_ok = conv == Conv::Bytes && same(loc.start, s, s2, true) && same(loc.end, en, en2, true);
                 if !chars_ok && !bytes_ok {
                     bad.push(("location-is-not-position-of-span".into(), format!("location {:?}-{:?}, span {sp:?} ({conv:?}) is at {:?}-{:?}", loc.start, loc.end, (s.0, s.1), (en.0, en.1))));
                 }
@@ -278,7 +310,9 @@ fn check_spans(b: &Built, errs: &prqlc::ErrorMessages, stage: &str, conv: Conv) 
         } else {
             bad.push(("span-without-display".into(), format!("span {sp:?} but no rendered message")));
         }
-        if bs < rz.max(ra + 1) && be.max(bs + 1) > ra {
+        // touching includes the two ends of the region: an error found at the end of the input may be
+        // reported as an empty span there
+        if bs <= rz && be >= ra {
             any_overlap = true;
         }
     }
@@ -319,7 +353,7 @@ fn convention() -> Conv {
                 continue;
             }
             for pi in [2usize, 3, 4] {
-                let b = build(&CaseSpec { template: ti, padding: pi, placement: 0 });
+                let b = build(&CaseSpec { template: ti, padding: pi, placement: 0, trailer: 0 });
                 let (_, bytes, chars) = check3(&b, t.1);
                 if bytes.is_empty() != chars.is_empty() {
                     if bytes.is_empty() {
@@ -379,7 +413,8 @@ pub fn run(tier: Tier) -> i32 {
         if placement >= 2 && TEMPLATES[template].2.starts_with("prql ") {
             return None;
         }
-        Some(CaseSpec { template, padding, placement })
+        let trailer = c.choose(TRAILERS.len(), "trailer");
+        Some(CaseSpec { template, padding, placement, trailer })
     });
     let specs: Vec<CaseSpec> = cases.iter().map(|(c, _)| c.clone()).collect();
     let outs = par_map(&specs, || (), |_, c| {
@@ -408,8 +443,8 @@ pub fn run(tier: Tier) -> i32 {
             };
             run.violate(
                 Some(key),
-                format!("{tn} / {} / placement {}: {m}", PADDINGS[spec.padding].0, spec.placement),
-                json!({"driver":"EDIT×STR","choices": ch, "template": tn, "padding": PADDINGS[spec.padding].0, "placement": spec.placement, "files": b.files, "err_file": b.err_file, "region_chars": [b.region.0, b.region.1], "detail": m}),
+                format!("{tn} / {} / placement {} / trailer {}: {m}", PADDINGS[spec.padding].0, spec.placement, TRAILERS[spec.trailer].0),
+                json!({"driver":"EDIT×STR","choices": ch, "template": tn, "padding": PADDINGS[spec.padding].0, "placement": spec.placement, "trailer": TRAILERS[spec.trailer].0, "files": b.files, "err_file": b.err_file, "region_chars": [b.region.0, b.region.1], "detail": m}),
             );
         }
     }
@@ -478,8 +513,8 @@ pub fn run(tier: Tier) -> i32 {
     }
     run.states = (cases.len() + edits.len()) as u64;
     run.transitions = st.points;
-    run.set("bounds", json!({"templates": TEMPLATES.iter().map(|t| t.0).collect::<Vec<_>>(), "paddings": PADDINGS.iter().map(|p| p.0).collect::<Vec<_>>(), "placements": ["single file", "2 files, error in root", "2 files, error in module", "3 files, error in module"]}));
-    run.set("rule", json!("complete product template × padding × placement; each erroneous project is compiled; every returned error is checked: non-empty reason; span ordered, inside the named file, location = line/column of the span, display quotes that line, and some span touches the known offending text (the unit of offsets — bytes or characters — is calibrated once per run on the errors behind multi-byte text, then every span is read in that unit; under bytes they must lie on character boundaries)"));
+    run.set("bounds", json!({"templates": TEMPLATES.iter().map(|t| t.0).collect::<Vec<_>>(), "paddings": PADDINGS.iter().map(|p| p.0).collect::<Vec<_>>(), "placements": ["single file", "2 files, error in root", "2 files, error in module", "3 files, error in module"], "trailers": TRAILERS.iter().map(|t| t.0).collect::<Vec<_>>()}));
+    run.set("rule", json!("complete product template × padding × placement × trailer; each erroneous project is compiled; every returned error is checked: non-empty reason; span ordered, inside the named file, location = line/column of the span, display quotes that line, and some span touches the known offending text (the unit of offsets — bytes or characters — is calibrated once per run on the errors behind multi-byte text, then every span is read in that unit; under bytes they must lie on character boundaries)"));
     run.assume("the unit of span offsets is a property of the compiler: it is calibrated per run (parser/resolver errors behind 2/3/4-byte text, where the readings differ) and applied to every result; without evidence it is bytes");
     run.set("span_unit", json!(format!("{:?}", convention())));
     run.finish()
@@ -494,7 +529,8 @@ pub fn replay(v: &serde_json::Value) -> i32 {
         println!("unknown template/padding");
         return 2;
     };
-    let spec = CaseSpec { template: t, padding: p, placement: v["placement"].as_u64().unwrap_or(0) as usize };
+    let trailer = TRAILERS.iter().position(|x| Some(x.0) == v["trailer"].as_str()).unwrap_or(0);
+    let spec = CaseSpec { template: t, padding: p, placement: v["placement"].as_u64().unwrap_or(0) as usize, trailer };
     let b = build(&spec);
     let bad = check(&b, TEMPLATES[t].1);
     for (k, m) in &bad {
